@@ -58,6 +58,22 @@ theorem bound_prop_keeps_type (P : Params) (s : Stack) (name expr : Str) (v : Va
   have hor : ¬ (':' :: name = sVHtml ∨ ':' :: name = sVText) := fun h => h.elim hne.1 hne.2
   simp [evalAttributes, hbn, he, wrapErr, ht, Scope.set, Scope.get, hasAttr, hor, List.lookup]
 
+/-- (3b) a STATIC attribute enters the props as its (trimmed) text, under its own name … -/
+theorem static_prop_is_its_text (P : Params) (s : Stack) (key v : Str)
+    (hk : boundNameOf key = key) (hne : key ≠ sVHtml ∧ key ≠ sVText)
+    (hi : Generated.containsInterpolation (trimSpace v) = false) :
+    evalAttributes P s [(key, v)] = .ok ([(key, trimSpace v)], [(key, .str (trimSpace v))]) := by
+  have hor : ¬ (key = sVHtml ∨ key = sVText) := fun h => h.elim hne.1 hne.2
+  simp [evalAttributes, hk, hi, hor, Scope.set, Scope.get, List.lookup]
+
+/-- … and an INTERPOLATED one as the interpolated text (a string, whatever the values inside the mustaches were) -/
+theorem interpolated_prop_is_interpolated_text (P : Params) (s : Stack) (key v t : Str)
+    (hk : boundNameOf key = key) (hne : key ≠ sVHtml ∧ key ≠ sVText)
+    (hi : Generated.containsInterpolation (trimSpace v) = true) (ht : interpolate P s (trimSpace v) = .ok t) :
+    evalAttributes P s [(key, v)] = .ok ([(key, t)], [(key, .str t)]) := by
+  have hor : ¬ (key = sVHtml ∨ key = sVText) := fun h => h.elim hne.1 hne.2
+  simp [evalAttributes, hk, hi, ht, hor, Scope.set, Scope.get, List.lookup]
+
 /-- (4) `:required`: a component whose wrapping `<template>` lists a name missing from the merged environment fails the render with an error
     that names it (for every includer state) … -/
 theorem required_missing_is_error (W : World) (f : Nat) (ctx : Ctx) (st : St) (attrs kids : _) (vars : Scope) (name : Str) (fm : Scope) (dom : List Node)
